@@ -343,7 +343,18 @@ def format_objects(m):
                     args[params[i]] = fold(a)
                 for kw in v.keywords:
                     args[kw.arg] = fold(kw.value)
-                obj = MiniInterp(init, args).run()
+                try:
+                    obj = MiniInterp(init, args).run()
+                except AnalysisError:
+                    # a constructor written with tables / tuple assignments: the general partial evaluator
+                    from .peval import PEval, Unsupported, is_const
+                    try:
+                        pe = PEval(m, init, dict(args)).run()
+                    except Unsupported as e:
+                        raise AnalysisError(f'{init.key}: {e}')
+                    if len(pe.final_envs) != 1:
+                        raise AnalysisError(f'{init.key}: the constructor does not evaluate to one state for {name} (needs a human)')
+                    obj = {k[5:]: v for k, v in pe.final_envs[0].items() if k.startswith('self.') and is_const(v)}
                 obj['__class__'] = cname
                 obj['__node__'] = v
                 obj['__mod__'] = mod
@@ -400,7 +411,7 @@ def rule_H5c(ctx):
         f = m.classes[cname].methods.get(fname)
         if f is None:
             raise AnalysisError(f'anchor vanished: {cname}.{fname}')
-        _check_float_to_int(r, f)
+        _check_float_to_int(r, f, m)
     _check_setters_getters(ctx, r, objs)
     _check_e8m0_mxint_bfloat_scale(ctx, r)
     return r
@@ -440,17 +451,28 @@ def _check_decompress(r, f):
         raise AnalysisError(f'{f.key}: table attribute assignments not recognised')
 
 
-def _check_float_to_int(r, f):
-    packs = [n for n in own_walk(f.node) if isinstance(n, ast.Call) and ast.unparse(n.func) == 'struct.pack']
-    fromb = [n for n in own_walk(f.node) if isinstance(n, ast.Call) and ast.unparse(n.func) == 'int.from_bytes']
+def _check_float_to_int(r, f, m=None):
+    # struct formats compiled once at module level: NAME = struct.Struct('<fmt>')
+    compiled = {}
+    if m is not None:
+        for nm, v in m.modglobals.get(f.mod, {}).items():
+            if isinstance(v, ast.Call) and ast.unparse(v.func) == 'struct.Struct' and v.args and isinstance(v.args[0], ast.Constant):
+                compiled[nm] = v.args[0].value
+    packs = [n for n in own_walk(f.node) if isinstance(n, ast.Call) and (ast.unparse(n.func) == 'struct.pack' or (
+        isinstance(n.func, ast.Attribute) and n.func.attr == 'pack' and isinstance(n.func.value, ast.Name) and n.func.value.id in compiled))]
+    fromb = [n for n in own_walk(f.node) if isinstance(n, ast.Call) and (ast.unparse(n.func) == 'int.from_bytes' or (
+        isinstance(n.func, ast.Attribute) and n.func.attr == 'unpack' and isinstance(n.func.value, ast.Name) and n.func.value.id in compiled))]
     if len(packs) != 1 or len(fromb) != 1:
         raise AnalysisError(f'{f.key}: half-precision conversion form not recognised (needs a human)')
-    fmt = fold(packs[0].args[0])
+    fmt = fold(packs[0].args[0]) if ast.unparse(packs[0].func) == 'struct.pack' else compiled[packs[0].func.value.id]
     bo = None
+    if ast.unparse(fromb[0].func) != 'int.from_bytes':
+        ufmt = compiled[fromb[0].func.value.id]
+        bo = {'>': 'big', '<': 'little', '!': 'big'}.get(ufmt[0]) if ufmt[1:] == 'H' else None
     for kw in fromb[0].keywords:
         if kw.arg == 'byteorder':
             bo = fold(kw.value)
-    if bo is None and len(fromb[0].args) > 1:
+    if bo is None and len(fromb[0].args) > 1 and ast.unparse(fromb[0].func) == 'int.from_bytes':
         bo = fold(fromb[0].args[1])
     order = {'>': 'big', '<': 'little', '!': 'big'}.get(fmt[0])
     if fmt[1:] != 'e' or order is None or order != bo:
@@ -571,10 +593,12 @@ def _check_setters_getters(ctx, r, objs):
         # overflow-mode selection
         modes = {objs[nm].get('mxfp_overflow') for nm in hfm}
         if len(hfm) > 1 and not unused:
-            sel = [n for n in own_walk(h.node) if isinstance(n, (ast.If, ast.IfExp)) and 'mxfp_overflow' in ast.unparse(n.test)]
+            test_al = G.simple_aliases(h, with_tests=True)
+            sel = [n for n in own_walk(h.node) if isinstance(n, (ast.If, ast.IfExp)) and 'mxfp_overflow' in ast.unparse(G.expand(h, n.test, test_al))]
             if len(sel) != 1:
                 raise AnalysisError(f'{h.key}: overflow-mode selection not recognised')
             t, sel_body, sel_else = G.pos_if(sel[0])
+            t = G.expand(h, t, test_al)
             if isinstance(sel[0], ast.IfExp):
                 sel_body, sel_else = [ast.Expr(value=sel_body)], [ast.Expr(value=sel_else)]
             if not (isinstance(t, ast.Compare) and isinstance(t.ops[0], ast.Eq) and isinstance(t.comparators[0], ast.Constant)):
@@ -640,18 +664,31 @@ def _check_e8m0_mxint_bfloat_scale(ctx, r):
         if len(vals) != 1:
             raise AnalysisError('e8m0 encoder: neither a table of allowed values nor a recognisable exponent range (needs a human)')
         lo, hi = vals[0][0], vals[0][1] + 1
-    subs = [n for n in own_walk(g.node) if isinstance(n, ast.BinOp) and isinstance(n.op, ast.Sub) and 'getuint' in ast.unparse(n.left)]
-    nan_t = [n for n in own_walk(g.node) if isinstance(n, ast.If) and 'nan' in ast.unparse(n.body[0])]
-    if len(subs) != 1 or len(nan_t) != 1:
-        raise AnalysisError('Bits._gete8m0mxfp form not recognised')
-    bias = fold(subs[0].right)
-    nan_at = fold(nan_t[0].test.comparators[0])
-    if lo != -bias or hi - lo != 255 or nan_at != 255 - bias:
+    # what the decoder returns for the codes 0, 127, 254 (powers of two around the bias) and 255, by partial evaluation
+    from .peval import PEval as _PE, Unsupported as _Un, is_const as _isc
+    import math as _math
+
+    def decode(code):
+        try:
+            pe = _PE(m, g, {'self._getuint()': code}).run()
+        except _Un as e:
+            raise AnalysisError(f'Bits._gete8m0mxfp: {e}')
+        vals = [v for v in pe.returns if _isc(v) and isinstance(v, float)]
+        if len(vals) != 1 or len(pe.returns) != 1:
+            raise AnalysisError('Bits._gete8m0mxfp form not recognised')
+        return vals[0]
+    d0, d127, d254, d255 = decode(0), decode(127), decode(254), decode(255)
+    if d127 == 1.0 and d0 == 2.0 ** -127 and d254 == 2.0 ** 127:
+        bias = 127
+    else:
+        bias = None if d127 == 0 or d127 != d127 else 127 - int(round(_math.log2(d127))) if d127 > 0 else None
+    nan_at = (255 - bias) if (d255 != d255 and bias is not None) else None
+    if bias is None or nan_at is None or lo != -bias or hi - lo != 255 or nan_at != 255 - bias:
         r.fail(g.key, f'range({lo}, {hi}) / bias {bias} / nan at {nan_at}',
                'e8m0: code i must mean 2**(i-127) for i in 0..254 and 255 must be NaN; the encoder table and the decoder constants disagree',
                loc=g.loc())
     else:
-        r.ok('e8m0 constants', {'instance': 'e8m0', 'range': [lo, hi], 'bias': bias, 'nan_code': nan_at + bias})
+        r.ok('e8m0 constants', {'instance': 'e8m0', 'range': [lo, hi], 'bias': bias, 'nan_code': nan_at + bias, 'decoded': {'0': d0, '127': d127, '254': d254}})
     nan_lit = [n for n in own_walk(s.node) if isinstance(n, ast.If) and 'isnan' in ast.unparse(n.test)]
     lit = [x.value for n in nan_lit for x in ast.walk(n) if isinstance(x, ast.Constant) and isinstance(x.value, str)]
     if not lit or lit[0] != '1' * 8:
@@ -762,6 +799,10 @@ def _check_e8m0_mxint_bfloat_scale(ctx, r):
             raise AnalysisError(f'{gk}: padding form not recognised')
         left_self = ast.unparse(adds[0].left) == 'self'
         pad = adds[0].right if left_self else adds[0].left
+        if isinstance(pad, ast.Name):
+            pdefs = [x.value for x in own_walk(g.node) if isinstance(x, ast.Assign) and len(x.targets) == 1 and ast.unparse(x.targets[0]) == pad.id]
+            if len(pdefs) == 1:
+                pad = pdefs[0]
         padn = fold(pad.args[0]) if isinstance(pad, ast.Call) and pad.args else None
         if left_self != want_left_self or padn != 16 or dec not in ast.unparse(g.node):
             r.fail(gk, adds[0], f"bfloat decode must pad 16 zero bits on the {'right' if want_left_self else 'left'} and read a "
